@@ -1217,3 +1217,35 @@ T("C01", "twin-reorder", P2P,
   """    find_and_add_loop_kill_paths_to_nested_graphs(node_graph)
     update_nested_node_graph_with_break_points(node_graph)""",
   "two independent phases reordered")
+
+# ---- later additions -------------------------------------------------------
+M("C08", "group-by-type", SEQ,
+  "async_groups[async_event_types[event.event_type]].append(event)",
+  "async_groups.setdefault(event.event_type, []).append(event)", "R8.8",
+  "mapped children grouped by their own type, not their group id")
+M("C09", "dedupe", SQL,
+  """            sorted(
+                compute_graph_hash_from_event_ids(child, node_to_children)
+                for child in children
+            )""",
+  """            sorted(set(
+                compute_graph_hash_from_event_ids(child, node_to_children)
+                for child in children
+            ))""", "R9.2", "equal sibling sub-trees collapsed")
+M("C11", "max-of-start", BASE,
+  """            self._max_timestamp,
+            otel_event.end_timestamp""",
+  """            self._max_timestamp,
+            otel_event.start_timestamp""", "R11.8",
+  "window's upper end tracks start times")
+T("C10", "twin-guarded-flush", SQL,
+  """        super().__exit__(exc_type, exc_val, exc_tb)
+        self.commit_batched_unique_data_to_database()""",
+  """        super().__exit__(exc_type, exc_val, exc_tb)
+        if self.node_models_to_save:
+            self.commit_batched_unique_data_to_database()""",
+  "flush skipped when nothing is pending")
+M("C12", "map-key", SEQ,
+  "        event_id_to_otel_event_map[otel_event.event_id] = otel_event\n",
+  "        event_id_to_otel_event_map[otel_event.event_type] = otel_event\n",
+  "R12.2", "per-trace map keyed by type: spans of one type overwrite each other")
